@@ -92,9 +92,68 @@ static void cb_stack_monitor(int kind, const void *p1, const void *p2, long v)
     }
 }
 
+/* C15 monitor: a local memory pool (ABTI_mem_pool_local_pool embedded in an execution stream) is unsynchronised;
+ * Model.MemPool treats every alloc/free on it as one atomic step, which holds only if the pool is used by the OS
+ * thread that currently runs as that execution stream.  The two pools embedded in the global structure serve callers
+ * without a stream and are protected by their spinlocks. */
+#define VSA_MAXT 64
+static const ABTI_xstream *runs_as[VSA_MAXT]; /* per controlled OS thread: the execution stream it was last seen running as */
+static void mempool_owner_monitor(int kind, const void *p1, const void *p2, long v)
+{
+    (void)p2;
+    (void)v;
+    {
+        int t = vs_tid();
+        if (t >= 0 && t < VSA_MAXT)
+            runs_as[t] = ABTI_local_get_xstream_or_null(ABTI_local_get_local());
+    }
+    if (kind != 80 && kind != 81)
+        return;
+    ABTI_global *p_global = gp_ABTI_global;
+    if (!p_global)
+        return;
+    ABTI_xstream *cur = ABTI_local_get_xstream_or_null(ABTI_local_get_local());
+    const char *p = (const char *)p1;
+    char bo[64], bc[64];
+    if (p1 == (const void *)&p_global->mem_pool_stack_ext || p1 == (const void *)&p_global->mem_pool_desc_ext) {
+        ABTD_spinlock *lk = (p1 == (const void *)&p_global->mem_pool_stack_ext) ? &p_global->mem_pool_stack_lock
+                                                                                 : &p_global->mem_pool_desc_lock;
+        vs_note("memUse %s ext %s %d", kind == 80 ? "alloc" : "free", cur ? vs_addr_name(cur, bc, sizeof bc) : "-", lk->val.val ? 1 : 0);
+        if (!lk->val.val)
+            vs_fail("shared external memory pool %s used without holding its lock", vs_addr_name(p1, bo, sizeof bo));
+        return;
+    }
+    const ABTI_xstream *owner = NULL;
+    for (ABTI_xstream *x = p_global->p_xstream_head; x; x = x->p_next)
+        if (p >= (const char *)x && p < (const char *)x + sizeof(ABTI_xstream))
+            owner = x;
+    if (!owner && cur && p >= (const char *)cur && p < (const char *)cur + sizeof(ABTI_xstream))
+        owner = cur; /* a stream that is not in the list yet / any more uses its own pool */
+    /* a stream whose OS thread does not exist (not started yet, or joined) may be served by its creator / joiner: the
+     * root ULT is allocated from and returned to the new stream's own pool */
+    int alive = 0;
+    if (owner)
+        for (int t = 0; t < VSA_MAXT; t++)
+            if (runs_as[t] == owner && vs_thread_alive(t))
+                alive = 1;
+    vs_note("memUse %s %s %s %d", kind == 80 ? "alloc" : "free", owner ? vs_addr_name(owner, bo, sizeof bo) : "?",
+            cur ? vs_addr_name(cur, bc, sizeof bc) : "-", alive);
+    int foreign_ok = owner && owner != cur && !alive;
+    if (owner != cur && !foreign_ok)
+        vs_fail("local memory pool of execution stream %s used by a thread that runs as %s (%s)",
+                owner ? vs_addr_name(owner, bo, sizeof bo) : "?", cur ? vs_addr_name(cur, bc, sizeof bc) : "no stream",
+                kind == 80 ? "alloc" : "free");
+}
+
+static void vsa_event_monitor(int kind, const void *p1, const void *p2, long v)
+{
+    cb_stack_monitor(kind, p1, p2, v);
+    mempool_owner_monitor(kind, p1, p2, v);
+}
+
 void vsa_begin(void)
 {
-    vs_set_event_fn(cb_stack_monitor);
+    vs_set_event_fn(vsa_event_monitor);
     vs_set_unit_fn(cur_unit);
     vs_init(vsa_seed, vsa_mode, vsa_logpath);
     dump_offsets();
